@@ -3,12 +3,14 @@ package worker
 import (
 	"bufio"
 	"bytes"
+	"context"
 	"encoding/json"
 	"fmt"
 	"io"
 	"math/rand"
 	"net"
 	"net/http"
+	"os"
 	"strconv"
 	"strings"
 	"sync"
@@ -32,11 +34,12 @@ type C06Fault struct {
 type C06Case struct {
 	ID       string     `json:"id"`
 	BodyLen  int        `json:"body_len"`
-	Chunks   int        `json:"chunks"`   // number of handler Write calls
-	DelayMs  int        `json:"delay_ms"` // pause between handler writes
-	Attempts []C06Fault `json:"attempts"` // script for attempt 1..n; further attempts get "ok"
-	HoldMs   int        `json:"hold_ms"`  // pause of the handler after the first write (lets an early fault land while streaming)
-	HeaderMs int        `json:"header_ms"` // pause of the handler before WriteHeader (a slow backend: all attempts may fail before the response exists)
+	Chunks   int        `json:"chunks"`      // number of handler Write calls
+	DelayMs  int        `json:"delay_ms"`    // pause between handler writes
+	Attempts []C06Fault `json:"attempts"`    // script for attempt 1..n; further attempts get "ok"
+	HoldMs   int        `json:"hold_ms"`     // pause of the handler after the first write (lets an early fault land while streaming)
+	HeaderMs int        `json:"header_ms"`   // pause of the handler before WriteHeader (a slow backend: all attempts may fail before the response exists)
+	VMID     bool       `json:"vm_identity"` // the proxy client is wrapped the way the agent wraps it on GCE (utils.RoundTripperWithVMIdentity, fake metadata server)
 }
 
 type C06Spec struct {
@@ -76,6 +79,7 @@ func c06Main(specBytes []byte) {
 	if spec.BoundMs <= 0 {
 		spec.BoundMs = 10000
 	}
+	c06StartMetadata()
 	sem := make(chan struct{}, spec.Parallel)
 	var wg sync.WaitGroup
 	for _, c := range spec.Cases {
@@ -131,6 +135,14 @@ func (s *c06Server) act(conn net.Conn, f C06Fault) {
 	switch f.Kind {
 	case "e5xx":
 		conn.Write([]byte("HTTP/1.1 503 Service Unavailable\r\nContent-Length: 0\r\nConnection: close\r\n\r\n"))
+		if f.KeepOpen {
+			time.Sleep(300 * time.Millisecond)
+		}
+		conn.Close()
+	case "e401", "e403", "e404", "e429":
+		// a rejection that is not a 5xx (expired identity token, unknown request, throttling): not a listed retry trigger, but
+		// whatever the client does about it must not lead to an acknowledged partial upload
+		conn.Write([]byte("HTTP/1.1 " + f.Kind[1:] + " Rejected\r\nContent-Length: 0\r\nConnection: close\r\n\r\n"))
 		if f.KeepOpen {
 			time.Sleep(300 * time.Millisecond)
 		}
@@ -289,6 +301,11 @@ func c06Run(c C06Case, bound time.Duration) C06Result {
 	}
 	client := &http.Client{Timeout: 60 * time.Second, Transport: &http.Transport{}}
 	defer client.CloseIdleConnections()
+	if c.VMID {
+		vctx, vcancel := context.WithCancel(context.Background())
+		defer vcancel()
+		client.Transport = utils.RoundTripperWithVMIdentity(vctx, client.Transport, target, false)
+	}
 	req, _ := http.ReadRequest(bufio.NewReader(strings.NewReader("GET /x HTTP/1.1\r\nHost: example\r\n\r\n")))
 	body := c06Body(c.ID, c.BodyLen)
 	start := time.Now()
@@ -448,4 +465,33 @@ func c06CheckPayload(id string, payload, body []byte) string {
 		return fmt.Sprintf("trailer X-T %q", v)
 	}
 	return ""
+}
+
+var c06MetaOnce sync.Once
+
+// c06StartMetadata starts a fake GCE metadata server (service-account e-mail
+// and identity tokens) and points the metadata library at it, so that
+// utils.RoundTripperWithVMIdentity wraps the client as it does on a GCE VM.
+func c06StartMetadata() {
+	c06MetaOnce.Do(func() {
+		l, err := net.Listen("tcp", "127.0.0.1:0")
+		if err != nil {
+			return
+		}
+		var n int64
+		mux := http.NewServeMux()
+		mux.HandleFunc("/", func(w http.ResponseWriter, r *http.Request) {
+			w.Header().Set("Metadata-Flavor", "Google")
+			switch {
+			case strings.HasSuffix(r.URL.Path, "/service-accounts/default/email"):
+				fmt.Fprint(w, "verif-sa@example.iam.gserviceaccount.com")
+			case strings.HasSuffix(r.URL.Path, "/service-accounts/default/identity"):
+				fmt.Fprintf(w, "vm-identity-token-%d", atomic.AddInt64(&n, 1))
+			default:
+				fmt.Fprint(w, "ok")
+			}
+		})
+		go http.Serve(l, mux)
+		os.Setenv("GCE_METADATA_HOST", l.Addr().String())
+	})
 }
